@@ -128,11 +128,15 @@ func c06Enumerate(r *harness.Run, maxSlots int, rotations []int, visit func(data
 		for i := 0; i < N; i++ {
 			pow *= nD
 		}
-		total := pow * uint64(len(dists)) * uint64(len(rotations)) * 3
+		total := pow * uint64(len(dists)) * uint64(len(rotations)) * 4
 		done := r.Parallel(total, func(w int, idx uint64) {
-			clash := int(idx % 3)
-			x := idx / 3
-			if clash > 0 {
+			clash := int(idx % 4)
+			x := idx / 4
+			if clash == 3 {
+				// a user text / movement whose name is NEAR a generated label but is another symbol (zero-padded number, other
+				// letter case, number written in hex): never a clash
+				clash = 100 + int(x%8)
+			} else if clash > 0 {
 				// which owner's label the user statement imitates and whether it stands before or after the scripts rotates with the data
 				clash += 2 * int(x%4)
 			}
@@ -231,7 +235,7 @@ func runC06(tier string) int {
 	r.Assume("names are <owner>_Text_<n> / <owner>_Movement_<n>, n counting the owner's new contents in source order of first appearance; content of a moves() is its written, expanded step list",
 		"identical content = identical text after terminator and format() processing and identical string type")
 	return r.Finish(r.Get("evaluations"), r.Get("nontrivial"),
-		"every file with N inline arguments distributed over 3 owners (two scripts and an inline map script, <= 3 each; in odd rotations the map script's first argument sits in a table entry written before the plain inline script) x every assignment of 25 datum kinds (contents ending in terminator characters, plain / already-terminated / formatted / other text, ascii, braille and custom types incl. typed texts whose final literal equals a plain one, one literal under six format() parameter sets of which two give the same result, 9 moves() spellings incl. lists that differ only in the length of their last run or whose run-length spelling collides with another step name) x context rotations over 13 contexts (statement, if, while, switch case, AutoVar condition, selected poryswitch case, '_' case after an unselected one, do-while condition, AutoVar leaf in a parenthesised / negated group followed by an operator, elif condition, AutoVar switch operand, second of two inline data in one command) x {no user name, a user text, a user movement named like a generated label of the first script or of the inline map script, before or after the scripts (rotating)}, every file defining constants named like the text contents and movement steps; plus long files with K pairwise different inline arguments for every K up to the bound in the coverage (5 text/movement patterns x 3 owner splits x 2 context rotations); plus one script with a moves() list of 41 steps for every 2-character (thorough: and 3-character) ending of its last step name over [a-z0-9_], each of which must get a block of its own; non-trivial = some content is shared between two arguments")
+		"every file with N inline arguments distributed over 3 owners (two scripts and an inline map script, <= 3 each; in odd rotations the map script's first argument sits in a table entry written before the plain inline script) x every assignment of 25 datum kinds (contents ending in terminator characters, plain / already-terminated / formatted / other text, ascii, braille and custom types incl. typed texts whose final literal equals a plain one, one literal under six format() parameter sets of which two give the same result, 9 moves() spellings incl. lists that differ only in the length of their last run or whose run-length spelling collides with another step name) x context rotations over 13 contexts (statement, if, while, switch case, AutoVar condition, selected poryswitch case, '_' case after an unselected one, do-while condition, AutoVar leaf in a parenthesised / negated group followed by an operator, elif condition, AutoVar switch operand, second of two inline data in one command) x {no user name, a user text, a user movement named like a generated label of the first script or of the inline map script, before or after the scripts (rotating), a user text / movement whose name is near a generated label without being one (zero-padded, other case, hex)}, every file defining constants named like the text contents and movement steps; plus long files with K pairwise different inline arguments for every K up to the bound in the coverage (5 text/movement patterns x 3 owner splits x 2 context rotations); plus one script with a moves() list of 41 steps for every 2-character (thorough: and 3-character) ending of its last step name over [a-z0-9_], each of which must get a block of its own; non-trivial = some content is shared between two arguments")
 }
 
 func c06Eval(r *harness.Run, data []datum, dist []int, rot, clash int) {
@@ -321,7 +325,28 @@ func c06Eval(r *harness.Run, data []datum, dist []int, rot, clash int) {
 	expectError := false
 	userName := ""
 	src := sb.String()
-	if clash > 0 {
+	if clash >= 100 {
+		owner := []string{"S1", "Map_ON_LOAD"}[(clash-100)/4]
+		switch (clash - 100) % 4 {
+		case 0:
+			userName = owner + "_Text_00"
+		case 1:
+			userName = owner + "_Movement_01"
+		case 2:
+			userName = owner + "_text_0"
+		default:
+			userName = owner + "_Text_0x0"
+		}
+		stmt := "text " + userName + " {\n\t\"user\"\n}\n"
+		if (clash-100)%4 == 1 {
+			stmt = "movement " + userName + " {\n\tuserstep\n}\n"
+		}
+		if clash%2 == 0 {
+			src = stmt + "\n" + src
+		} else {
+			src += stmt
+		}
+	} else if clash > 0 {
 		owner := []string{"S1", "S1", "Map_ON_LOAD", "Map_ON_LOAD"}[(clash-1)/2]
 		before := (clash-1)/2 == 1 || (clash-1)/2 == 2
 		var stmt string
